@@ -151,12 +151,13 @@ def main():
     base = sh(f"git -C /repo rev-parse --short {REV or 'HEAD'}").stdout.strip()
     snapshot()
     ms = [json.loads(l) for l in sh(f"{SNAP}/bin/mutgen list {SNAP}/repo0").stdout.splitlines()]
+    mkey = lambda m: f"{m['file']}:{m['line']}:{m['col']}:{m['op']}:{m['repl']}"
     done = {}
     if os.path.exists(RES):
         for l in open(RES):
             r = json.loads(l)
-            if r.get("base") == base:
-                done[r["id"]] = r
+            if r.get("base") == base and "followup_of" not in r:
+                done[mkey(r)] = r
     todo = []
     if keys is not None:
         # follow-up of earlier survivors on the current tree: {key on this tree: key in the earlier run}
@@ -172,7 +173,7 @@ def main():
         if ids is not None and m["id"] not in ids: continue
         if ops is not None and m["op"] not in ops: continue
         if files is not None and m["file"] not in files: continue
-        if m["id"] in done and not (redo and done[m["id"]]["status"] == "survived") and ids is None: continue
+        if mkey(m) in done and not (redo and done[mkey(m)]["status"] == "survived") and ids is None: continue
         todo.append(m)
     if sample is not None:
         random.Random(1).shuffle(todo); todo = sorted(todo[:sample], key=lambda m: m["id"])
